@@ -1,6 +1,7 @@
 package props
 
 import (
+	"sort"
 	"encoding/json"
 	"fmt"
 	"math/rand"
@@ -294,8 +295,14 @@ func (c11) Run(cs any) core.Result {
 				sig = "map-key-contravariance"
 			} else if c11InsideRelaxed(pi.Decls[f.Predicate], f, false, true) {
 				// conformance lets a struct type that does not mention a field conform to one that
-				// constrains it as optional (known finding F7g of C12)
+				// constrains it as optional (known finding F7g of C12). A field goes unmentioned only
+				// when the types of several structs with different field sets are joined (elements of
+				// one list or map); a struct standing alone has a type that mentions all its fields.
+				// (For a derived fact the types come from declarations, which may leave a field out.)
 				sig = "struct-optional-field-unconstrained"
+				if f.Predicate.Symbol != "p" && !c11MixedStructs(f) {
+					sig = "struct-optional-field-wrong-type-accepted"
+				}
 			} else if c11InsideRelaxed(pi.Decls[f.Predicate], f, true, true) {
 				sig = "map-key-contravariance+struct-optional-field-unconstrained"
 			} else if c11TagWiden = true; c11InsideRelaxed(pi.Decls[f.Predicate], f, false, false) {
@@ -309,6 +316,63 @@ func (c11) Run(cs any) core.Result {
 	}
 	res.NonTrivial = derived > 0
 	return res
+}
+
+// c11MixedStructs reports whether some list or map inside the fact holds two structs with different field sets.
+func c11MixedStructs(f ast.Atom) bool {
+	var walk func(c ast.Constant) bool
+	fields := func(c ast.Constant) string {
+		var ks []string
+		c.StructValues(func(k, v ast.Constant) error { ks = append(ks, k.Symbol); return nil }, func() error { return nil })
+		sort.Strings(ks)
+		return strings.Join(ks, ",")
+	}
+	mixed := func(elems []ast.Constant) bool {
+		seen := ""
+		first := true
+		for _, e := range elems {
+			if e.Type != ast.StructShape {
+				continue
+			}
+			fs := fields(e)
+			if !first && fs != seen {
+				return true
+			}
+			seen, first = fs, false
+		}
+		return false
+	}
+	walk = func(c ast.Constant) bool {
+		var elems, other []ast.Constant
+		switch c.Type {
+		case ast.ListShape:
+			c.ListValues(func(e ast.Constant) error { elems = append(elems, e); return nil }, func() error { return nil })
+		case ast.MapShape:
+			c.MapValues(func(k, v ast.Constant) error { elems = append(elems, v); other = append(other, k); return nil }, func() error { return nil })
+		case ast.StructShape:
+			c.StructValues(func(k, v ast.Constant) error { other = append(other, v); return nil }, func() error { return nil })
+		case ast.PairShape:
+			a, b, err := c.PairValue()
+			if err == nil {
+				other = append(other, a, b)
+			}
+		}
+		if mixed(elems) || mixed(other) && c.Type == ast.MapShape {
+			return true
+		}
+		for _, e := range append(elems, other...) {
+			if walk(e) {
+				return true
+			}
+		}
+		return false
+	}
+	for _, a := range f.Args {
+		if c, ok := a.(ast.Constant); ok && walk(c) {
+			return true
+		}
+	}
+	return false
 }
 
 // c11InsideRelaxed re-judges the fact against the declaration with every map key
